@@ -32,6 +32,8 @@ type OpCall struct {
 // ShutdownContext classifies op relative to the Shutdown operations in ops: whether a Shutdown was in
 // progress at some moment of op, or had failed / succeeded before op was invoked. Used in violation
 // signatures so that known findings are matched narrowly.
+//
+//go:norace
 func ShutdownContext(ops []*OpCall, op *OpCall) string {
 	res := "plain"
 	rank := map[string]int{"plain": 0, "after-shutdown": 1, "after-failed-shutdown": 2, "overlaps-shutdown": 3}
@@ -60,6 +62,8 @@ func ShutdownContext(ops []*OpCall, op *OpCall) string {
 }
 
 // FirstShutdownInv returns the stamp of the earliest Shutdown invocation (0 if none).
+//
+//go:norace
 func FirstShutdownInv(ops []*OpCall) uint64 {
 	var f uint64
 	for _, op := range ops {
@@ -71,6 +75,8 @@ func FirstShutdownInv(ops []*OpCall) uint64 {
 }
 
 // MkCtx builds a caller context of the given kind: 0 background, 1 already cancelled, 2 timeout d.
+//
+//go:norace
 func MkCtx(kind int, d time.Duration) (context.Context, context.CancelFunc, string) {
 	switch kind {
 	case 1:
@@ -88,6 +94,8 @@ func MkCtx(kind int, d time.Duration) (context.Context, context.CancelFunc, stri
 var ErrInjected = errors.New("injected exporter error")
 
 // SleepCtx waits d or until ctx is done, as a scheduling-aware blocking operation.
+//
+//go:norace
 func SleepCtx(ctx context.Context, d time.Duration) error {
 	simrt.Yield(PtExpWait)
 	tm := time.NewTimer(d)
@@ -105,6 +113,8 @@ func SleepCtx(ctx context.Context, d time.Duration) error {
 // Behave plays one tape-chosen behaviour of an exporter-like stub. In fault-free runs the stub is
 // only occasionally slow; in faulty runs it errors, is slow while ignoring or honouring ctx, or hangs
 // until ctx is done (only when ctx carries a deadline, so that every hang is bounded).
+//
+//go:norace
 func (r *Run) Behave(ctx context.Context, what string, faulty bool, delays []time.Duration) error {
 	sim := r.Sim
 	if !faulty {
